@@ -249,6 +249,11 @@ func (c *nestedFloat64WithMaxDecimalDigits) marshalJSON(
 ) ([]byte, error) {
 	switch val.Kind() {
 	case reflect.Slice:
+		if val.IsNil() {
+			// As encoding/json does: a nil slice (the coordinate of an empty
+			// point in a MultiPoint) is null, not an empty array.
+			return append(buf, "null"...), nil
+		}
 		buf = append(buf, '[')
 		for i := range val.Len() {
 			if i > 0 {
